@@ -727,15 +727,21 @@ class Assembler:
                     k = kc + 1
                     continue
                 k += 1
-            for ctor in blk.eta:
+            for ctor_decl in blk.eta:
+                # `//@ eta Path::Ctor -> Type`: the closure also states what it returns (`ensures eta_r == Path::Ctor(eta_x)`),
+                # needed when the caller's proof depends on the value (Option::map(Ctor)); the type is the constructed type
+                ctor, _, ctor_ty = [x.strip() for x in ctor_decl.partition('->')]
                 found = 0
                 for mo in re.finditer(r'\(\s*(%s)\s*\)' % re.escape(ctor), text[st[a].end:st[b].start]):
                     s0 = st[a].end + mo.start(1)
                     e0 = st[a].end + mo.end(1)
-                    edits.append((s0, e0, '|eta_x| %s(eta_x)' % ctor))
+                    if ctor_ty:
+                        edits.append((s0, e0, '|eta_x| -> (eta_r: %s) ensures eta_r == %s(eta_x), { %s(eta_x) }' % (ctor_ty, ctor, ctor)))
+                    else:
+                        edits.append((s0, e0, '|eta_x| %s(eta_x)' % ctor))
                     self.rewrites.append('R9 %s:%d constructor %s passed as a function value eta-expanded' % (blk.relpath, src.line_of(s0), ctor))
                     found += 1
-                blk.eta_found[ctor] = blk.eta_found.get(ctor, 0) + found
+                blk.eta_found[ctor_decl] = blk.eta_found.get(ctor_decl, 0) + found
             if tgt:
                 for n in tgt.closures:
                     if n not in seen_closures and ('closure', n) not in tgt.optional:
